@@ -293,7 +293,9 @@ func (c *child) runCase(d caseDesc) caseResult {
 	b := g.build(c.fx, r, d.V)
 	buildMS := time.Since(tb).Milliseconds()
 	tg := time.Now()
-	runtime.GC()
+	if heapBytes() > 192<<20 {
+		runtime.GC()
+	}
 	gcMS := time.Since(tg).Milliseconds()
 	base := heapBytes()
 	c.peak.Store(base)
@@ -403,6 +405,7 @@ func tokRecord(t *tokCase, o stepOut) string {
 
 func childMain() {
 	debug.SetMemoryLimit(2 << 30)
+	tierQuick = os.Getenv("VERIF_C19_TIER") != "thorough"
 	out := bufio.NewWriter(os.Stdout)
 	emit := func(r caseResult) {
 		b, _ := json.Marshal(r)
@@ -477,7 +480,7 @@ func (t *tailBuf) head(n int) string {
 
 func startChild() (*proc, error) {
 	cmd := exec.Command(os.Args[0])
-	cmd.Env = append(os.Environ(), "VERIF_C19_CHILD=1", "GOTRACEBACK=single")
+	cmd.Env = append(os.Environ(), "VERIF_C19_CHILD=1", "GOTRACEBACK=single", "VERIF_C19_TIER="+childTier)
 	stdin, err := cmd.StdinPipe()
 	if err != nil {
 		return nil, err
@@ -536,6 +539,8 @@ func (p *proc) kill() {
 		<-done
 	}
 }
+
+var childTier = "quick"
 
 type runner struct {
 	w *rec.Writer
@@ -602,6 +607,9 @@ func (rn *runner) run(d caseDesc) {
 	for _, c := range r.Classes {
 		w.Stat("request."+className[c], 1)
 	}
+	if os.Getenv("VERIF_C19_TIMES") != "" && r.MS > 800 {
+		fmt.Fprintf(os.Stderr, "%6d ms %s v=%d %s\n", r.MS, d.G, d.V, clip(r.Note, 160))
+	}
 	w.Stat("ms."+d.G, int(r.MS))
 	w.Stat("build_ms."+d.G, int(r.BuildMS))
 	w.Stat("gc_ms", int(r.GCMS))
@@ -620,6 +628,7 @@ func main() {
 		return
 	}
 	o := rec.ParseFlags()
+	childTier = o.Tier
 	w := rec.NewWriter(o.Out)
 	defer w.Close()
 	rn := &runner{w: w}
